@@ -61,17 +61,21 @@ def bundle_of(n, salt=0):
     return out
 
 
-def exact_bundle(n, salt=0):
-    '''a CBOR item of exactly n octets whose first octet has major type 4 (n >= 1)'''
+def exact_bundle(n, salt=0, zeros=False):
+    '''a CBOR item of exactly n octets whose first octet has major type 4 (n >= 1); zeros: a zero-filled payload, so
+    that transfer segments end in 0x00 octets (what padding looks like)'''
     if n == 1:
         return b'\x80'
+
+    def fill(k):
+        return bytes(k) if zeros else bytes((i * 11 + 5 + salt * 17) % 253 for i in range(k))
     for k in range(max(0, n - 12), n):
-        cand = b'\x81' + cbor2.dumps(bytes((i * 11 + 5 + salt * 17) % 253 for i in range(k)))
+        cand = b'\x81' + cbor2.dumps(fill(k))
         if len(cand) == n:
             return cand
     # lengths just above a head boundary cannot be hit with one byte string: use two items
     for k in range(max(0, n - 14), n):
-        cand = b'\x82\x00' + cbor2.dumps(bytes((i * 11 + 5 + salt * 17) % 253 for i in range(k)))
+        cand = b'\x82\x00' + cbor2.dumps(fill(k))
         if len(cand) == n:
             return cand
     raise ValueError(n)
@@ -124,7 +128,8 @@ def check_send(n, mtu, tid, fails, stats):
     '''-> (data, segments) or None'''
     stats['evaluations'] += 1
     case = {'length': n, 'mtu': mtu, 'tid': tid}
-    data = exact_bundle(n) if n >= 1 else b''
+    # (every other length of the receive runs carries a zero-filled payload: segments ending in 0x00)
+    data = exact_bundle(n, zeros=(tid == 24 and n % 20 == 0)) if n >= 1 else b''
     tiny = mtu is not None and n >= mtu and mtu <= 3 + hsize(tid) + 3 * hsize(n)
     import signal
 
